@@ -446,6 +446,7 @@ from stationeers_pytrapic.symbols import *
 from stationeers_pytrapic.types import *
 from stationeers_pytrapic.types_generated import *
 from stationeers_pytrapic.utils import calc_hash as HASH
+from builtins import *  # abs, max, min, pow, round are Python's, not the instruction wrappers
 import json as __json
 
 def constexpr(f):
